@@ -3,7 +3,7 @@ From Coq Require Import NArith ZArith List Bool.
 From Coq Require Import Sorting.Sorted Sorting.Permutation.
 From FitV Require Import Model.Values Model.IO Model.Header Model.Route Model.Components Model.Decode Proofs.DecodeLemmas
   Spec.FitSyntax Spec.RouteSpec Proofs.StreamDenoteDefs Proofs.StreamDenoteLift Proofs.StreamDenoteMain Proofs.StreamDenoteCor
-  Proofs.StreamDenoteOpts Proofs.StreamDenoteFail.
+  Proofs.StreamDenoteOpts Proofs.StreamDenoteFail Proofs.StreamDenoteFrame Proofs.StreamDenoteFailDecode.
 Import ListNotations.
 Local Open Scope N_scope.
 
@@ -152,11 +152,32 @@ Theorem C16_counts_on_failure_file : forall rs r cut rem o pre fb gb ft s0 ss0 s
 Proof. exact counts_on_failure_file. Qed.
 Print Assumptions C16_counts_on_failure_file.
 
-(* PARTIAL: counts_on_failure is proved for the record loop on the abstract interpreter from any state satisfying the
-   invariant (which the file_id prologue establishes: C02); its composition with the prologue and the buffered reader
-   into one statement about entry_Decode is not written out (the buffered run equals the abstract one observationally
-   by buffered_run_abstract, and decode applies finalize_unknown to the state returned with the failure). For
-   ill-formed tails the bound is (1)-(3): at least the completed records, at most one record's contribution per
-   parsed record. *)
+(* (5) the entry point: Decode on a file cut inside record r (the header promises more data than the reader delivers),
+   through any reader oracle: an I/O error (unexpected EOF, or the reader's fault), and the lists in the partial File
+   returned with it lie, count for count, between the reference counts of the completed records and those including
+   the record in flight *)
+Theorem C16_Decode_counts_on_failure :
+  forall o g rd fuel h l be fds (devflag : bool) (devs : list (N * N * N)) pay dev rest r cut rem ss1 ss2 f2 g1,
+  let rs := RDef l be Gen.Consts.c_MesgNumFileId fds devflag devs :: RData l pay dev :: rest in
+  header_wf h ->
+  rd_data rd = hdr_bytes h ++ ser_records rs ++ cut ->
+  (List.length (ser_records rs ++ cut) < N.to_nat (h_dsize h))%nat ->
+  stream_wf rs = true -> no_time_quirk rs = true -> denote rs = Some ss1 ->
+  start_file h g (hd dummy_msg (ss_msgs ss1)) = Some (f2, g1) ->
+  rec_wf r = true -> record_time_ok ss1 r = true -> denote_record ss1 r = Some ss2 ->
+  ser_record r = cut ++ rem -> rem <> [] ->
+  (List.length (rd_data rd) + List.length (rd_sched rd) < fuel)%nat ->
+  exists e file' rd' g' q,
+    entry_Decode o g rd fuel = TDone (mk_dres (Some (EIO e)) h (Some file') rd' g' q) /\
+    (o_unkm o = true ->
+     exists lm, f_unkm file' = Some lm /\ forall k, cnt1 k (ss_unkm ss1) <= cnt1 k lm <= cnt1 k (ss_unkm ss2)) /\
+    (o_unkf o = true ->
+     exists lf, f_unkf file' = Some lf /\ forall m k, cnt2 m k (ss_unkf ss1) <= cnt2 m k lf <= cnt2 m k (ss_unkf ss2)).
+Proof. exact Decode_counts_on_failure. Qed.
+Print Assumptions C16_Decode_counts_on_failure.
+
+(* PARTIAL: for ill-formed tails (not a truncation of a well-formed stream) the bound is (1)-(3): at least the counts of
+   the completed records, at most one record's contribution per parsed record; the entry-point form is written out for
+   truncation only. *)
 Example C16_example : sort_unkm [(300, 2); (22, 1)] = [(22, 1); (300, 2)].
 Proof. reflexivity. Qed.
